@@ -126,6 +126,30 @@ func traceToCalls(c *Ctx, fn *ssa.Function, v ssa.Value, depth int) []*ssa.Call 
 	switch x := v.(type) {
 	case *ssa.Call:
 		return []*ssa.Call{x}
+	case *ssa.Field:
+		// a member of a per-request record handed down by value (negotiation{version: …}.version)
+		return traceRecordField(c, fn, x.X, x.Field, depth+1)
+	case *ssa.UnOp:
+		if fa, ok := x.X.(*ssa.FieldAddr); ok && x.Op == token.MUL {
+			if al, ok := fa.X.(*ssa.Alloc); ok {
+				// a local record: what was stored into the member, or into the whole record
+				var out []*ssa.Call
+				for _, r := range *al.Referrers() {
+					if fa2, ok := r.(*ssa.FieldAddr); ok && fa2.Field == fa.Field {
+						for _, u := range *fa2.Referrers() {
+							if st, ok := u.(*ssa.Store); ok && st.Addr == ssa.Value(fa2) {
+								out = append(out, traceToCalls(c, fn, st.Val, depth+1)...)
+							}
+						}
+					}
+					if st, ok := r.(*ssa.Store); ok && st.Addr == ssa.Value(al) {
+						out = append(out, traceRecordField(c, fn, st.Val, fa.Field, depth+1)...)
+					}
+				}
+				return out
+			}
+		}
+		return nil
 	case *ssa.Extract:
 		return traceToCalls(c, fn, x.Tuple, depth+1)
 	case *ssa.Phi:
@@ -1667,4 +1691,71 @@ func userCallbackReached(c *Ctx, call *ssa.Call) string {
 		}
 	}
 	return ""
+}
+
+// traceRecordField follows member #field of a record value (a struct handed around by value) to the calls its
+// content comes from: through parameters (every library caller), the library function that built the record, and the
+// composite literal it was built with.
+func traceRecordField(c *Ctx, fn *ssa.Function, rec ssa.Value, field int, depth int) []*ssa.Call {
+	if depth > 6 || rec == nil {
+		return nil
+	}
+	switch x := rec.(type) {
+	case *ssa.Parameter:
+		idx := -1
+		for i, p := range fn.Params {
+			if p == x {
+				idx = i
+			}
+		}
+		var out []*ssa.Call
+		for _, e := range ir.Callers(c.G, fn) {
+			if e.Site == nil || !c.P.IsLib(e.Caller.Func) {
+				continue
+			}
+			args := e.Site.Common().Args
+			if idx >= 0 && idx < len(args) {
+				out = append(out, traceRecordField(c, e.Caller.Func, args[idx], field, depth+1)...)
+			}
+		}
+		return out
+	case *ssa.Call:
+		sc := ir.StaticCallee(x)
+		if sc == nil || !c.P.IsLib(sc) || sc.Blocks == nil {
+			return nil
+		}
+		var out []*ssa.Call
+		for _, b := range sc.Blocks {
+			if ret, ok := b.Instrs[len(b.Instrs)-1].(*ssa.Return); ok && len(ir.Results(ret)) > 0 {
+				out = append(out, traceRecordField(c, sc, ir.Results(ret)[0], field, depth+1)...)
+			}
+		}
+		return out
+	case *ssa.UnOp:
+		al, ok := x.X.(*ssa.Alloc)
+		if !ok || x.Op != token.MUL {
+			return nil
+		}
+		var out []*ssa.Call
+		for _, r := range *al.Referrers() {
+			if fa, ok := r.(*ssa.FieldAddr); ok && fa.Field == field {
+				for _, u := range *fa.Referrers() {
+					if st, ok := u.(*ssa.Store); ok && st.Addr == ssa.Value(fa) {
+						out = append(out, traceToCalls(c, fn, st.Val, depth+1)...)
+					}
+				}
+			}
+			if st, ok := r.(*ssa.Store); ok && st.Addr == ssa.Value(al) {
+				out = append(out, traceRecordField(c, fn, st.Val, field, depth+1)...)
+			}
+		}
+		return out
+	case *ssa.Phi:
+		var out []*ssa.Call
+		for _, e := range x.Edges {
+			out = append(out, traceRecordField(c, fn, e, field, depth+1)...)
+		}
+		return out
+	}
+	return nil
 }
